@@ -47,7 +47,10 @@ CONSTANTS Tiles,          \* tile ids
           CopyInfo, ResetStamp, BranchFlavours,
           Lenient,        \* BOOLEAN: admit 304 as well where If-Modified-Since equals the Last-Modified second (see Respond)
           MaxClock,       \* bound of the clock (half seconds)
-          Sizes           \* size classes of tile bodies
+          Sizes,          \* size classes of tile bodies
+          LinkedSizes     \* size classes of tiles that the store keeps as symbolic links to a shared image (file cache
+                          \* with link_single_color_images: tiles of one colour): read back, their size is the size of
+                          \* the link (class 0, the same for all of them), their time stamp that of the link itself
 
 VARIABLES cache,          \* [Tiles -> NoTile or [m, s, v]]: mtime (half seconds), size class, content version
           prev,           \* [Tiles -> NoTile or entry]: the entry replaced by the last rewrite (what a client may still hold)
@@ -74,6 +77,7 @@ Etag(ts, size) == <<ts, size>>
 \* before any tile (before 1970): never a reason for 304
 NoCond == [inm |-> NOHDR, ims |-> -1]
 
+Disk(s) == IF s \in LinkedSizes THEN 0 ELSE s        \* size (class) of a tile as the store reports it
 StoreTime(c) == IF Backend = "sqlite" THEN 2 * (c \div 2) ELSE c
 Stale(e)  == e # NoTile /\ (e.m \div 2) <= thr
 Fresh(t)  == cache[t] # NoTile /\ ~Stale(cache[t])
@@ -120,7 +124,7 @@ Init ==
 
 GetCached(f, t, h) ==
   /\ Fresh(t)
-  /\ LET info == [ts |-> cache[t].m, size |-> cache[t].s, cacheable |-> TRUE]
+  /\ LET info == [ts |-> cache[t].m, size |-> Disk(cache[t].s), cacheable |-> TRUE]
      IN \E r \in Respond(f, t, h, info, cache[t].v, "cached") :
         /\ resp' = r /\ issued' = issued \cup {r.etag}
         /\ served' = [served EXCEPT ![t] = [etag |-> r.etag, lm |-> r.lm,
@@ -129,7 +133,7 @@ GetCached(f, t, h) ==
 
 \* what the tile object carries before creation: metadata of the expired tile, if there is one
 PreTs(t)   == IF cache[t] = NoTile THEN -1 ELSE cache[t].m
-PreSize(t) == IF cache[t] = NoTile THEN -1 ELSE cache[t].s
+PreSize(t) == IF cache[t] = NoTile THEN -1 ELSE Disk(cache[t].s)
 
 Rewritten(t, s) == [u \in Tiles |-> IF u \in Created(t) THEN [m |-> StoreTime(clock), s |-> s, v |-> ver] ELSE cache[u]]
 PrevAfter(t)    == [u \in Tiles |-> IF u \in Created(t) /\ cache[u] # NoTile THEN cache[u] ELSE prev[u]]
@@ -193,12 +197,12 @@ Tick ==
 (* date; INM and IMS together.                                             *)
 (***************************************************************************)
 \* (with sqlite the response that created a tile at an odd half second carried ETag(m + 1, s))
-EtagsOf(e)  == IF e = NoTile THEN {} ELSE {Etag(e.m, e.s)} \cup (IF Backend = "sqlite" THEN {Etag(e.m + 1, e.s)} ELSE {})
+EtagsOf(e)  == IF e = NoTile THEN {} ELSE {Etag(e.m, e.s), Etag(e.m, Disk(e.s))} \cup (IF Backend = "sqlite" THEN {Etag(e.m + 1, e.s)} ELSE {})
 EtagsFor(t) == {GARB, NN} \cup EtagsOf(cache[t]) \cup EtagsOf(prev[t])
 SecsFor(t)  == LET base == {clock \div 2} \cup (IF cache[t] # NoTile THEN {cache[t].m \div 2} ELSE {})
                                           \cup (IF prev[t] # NoTile THEN {prev[t].m \div 2} ELSE {})
                IN {d \in UNION {{b - 1, b, b + 1} : b \in base} : d >= 0}
-StaleEtags(t) == {GARB} \cup (IF prev[t] # NoTile THEN {Etag(prev[t].m, prev[t].s)} ELSE {})
+StaleEtags(t) == {GARB} \cup (IF prev[t] # NoTile THEN {Etag(prev[t].m, prev[t].s), Etag(prev[t].m, Disk(prev[t].s))} ELSE {})
 NearSecs(t)   == LET b == IF cache[t] # NoTile THEN cache[t].m \div 2 ELSE clock \div 2
                  IN {d \in {b - 1, b, b + 1} : d >= 0}
 Hdrs(t) == {NoCond, [inm |-> NOHDR, ims |-> -2], [inm |-> NOHDR, ims |-> -3]}
@@ -249,7 +253,7 @@ BodyCurrent ==
 
 \* a request with the current ETag is answered 304 without body
 INMCurrent ==
-  (IsGet /\ resp.phase = "cached" /\ resp.h.inm = Etag(Cur.m, Cur.s)) => resp.status = 304 /\ resp.body = -1
+  (IsGet /\ resp.phase = "cached" /\ resp.h.inm = Etag(Cur.m, Disk(Cur.s))) => resp.status = 304 /\ resp.body = -1
 
 \* 304 only if the client's validator matches the tile as stored now
 Sound304 ==
@@ -257,7 +261,7 @@ Sound304 ==
      /\ resp.body = -1
      /\ resp.phase # "error"
      /\ Cur # NoTile
-     /\ \/ resp.h.inm = Etag(Cur.m, Cur.s)
+     /\ \/ resp.h.inm = Etag(Cur.m, Disk(Cur.s))
         \/ resp.h.ims >= 0 /\ resp.h.ims >= Cur.m \div 2
 
 \* tiles that must not be cached are sent with no-store (and nothing that allows caching)
